@@ -102,6 +102,8 @@ pub struct Interp {
     pub cfg: Cfg,
     pub focus: String,
     pub max_idle: usize,
+    /// gate controller when worker steps are serialised by a scheduler policy
+    pub ctl: Option<std::sync::Arc<crate::gates::Ctl>>,
 }
 
 struct Run {
@@ -332,7 +334,8 @@ impl Interp {
                 let tw: usize = w.iter().sum();
                 let bad_tot = ta as i64 != jint(ret, "active") || tw as i64 != jint(ret, "wasted");
                 let mut bad_shard = false;
-                if run.literal {
+                let spec_shards = jget(ret, "active_shards").as_object().map(|m| m.len()).unwrap_or(0);
+                if run.literal && spec_shards == run.drv.shards() {
                     for (k, v) in a.iter().enumerate() {
                         bad_shard |= jget(jget(ret, "active_shards"), &k.to_string()).as_i64() != Some(*v as i64);
                     }
@@ -453,6 +456,10 @@ impl Interp {
         rep.sample(beh);
         self.classify(steps, rep);
         let drv = self.cfg.build();
+        let reordered0 = self.ctl.as_ref().map(|c| c.reordered.load(std::sync::atomic::Ordering::SeqCst)).unwrap_or(0);
+        if let Some(ctl) = &self.ctl {
+            ctl.start_gating(drv.main_uid());
+        }
         let literal = drv.literal_ids();
         let mut run = Run { drv, to_spec: HashMap::new(), to_real: HashMap::new(), literal };
         let empty = json!({"tracks": [], "epochs": [], "issued": 0});
@@ -465,6 +472,9 @@ impl Interp {
                 Err(_) => Some(("panic".to_string(), json!({}))),
             };
             if let Some((aspect, mut detail)) = m {
+                if let Some(ctl) = &self.ctl {
+                    ctl.open_all();
+                }
                 let props = props_of(&aspect);
                 if self.focus == "all" || props.contains(&self.focus.as_str()) {
                     detail["step"] = json!(k);
@@ -476,6 +486,12 @@ impl Interp {
                 return;
             }
             before = jget(s, "proj").clone();
+        }
+        if let Some(ctl) = &self.ctl {
+            ctl.open_all();
+            if ctl.reordered.load(std::sync::atomic::Ordering::SeqCst) > reordered0 {
+                rep.count("nt_C05", 1);
+            }
         }
         rep.nontrivial += 1; // overwritten per property from the nt_* counters by the check
     }
@@ -505,8 +521,22 @@ pub fn cfg_from_opts(opts: &Opts) -> Cfg {
 
 pub fn main(opts: &Opts) {
     let cfg = cfg_from_opts(opts);
-    let it = Interp { max_idle: cfg.max_idle, cfg, focus: opts.str("focus", "all") };
+    let sched = opts.str("sched", "none");
+    let (ctl, handle) = if sched != "none" {
+        let ctl = crate::gates::Ctl::install();
+        let h = ctl.spawn_scheduler(&sched, opts.u64("seed", 1));
+        (Some(ctl), Some(h))
+    } else {
+        (None, None)
+    };
+    let it = Interp { max_idle: cfg.max_idle, cfg, focus: opts.str("focus", "all"), ctl: ctl.clone() };
     let mut rep = Report::new();
     for_each_case(opts, |idx, beh| it.replay(idx, &beh, &mut rep));
+    if let (Some(ctl), Some((stop, h))) = (ctl, handle) {
+        stop.store(true, std::sync::atomic::Ordering::SeqCst);
+        ctl.open_all();
+        let _ = h.join();
+        crate::gates::Ctl::uninstall();
+    }
     rep.finish();
 }
